@@ -43,9 +43,11 @@ type Tables struct {
 }
 
 func (P *Prog) tables() (*Tables, error) {
-	if P.tbl != nil || P.tblErr != nil {
-		return P.tbl, P.tblErr
-	}
+	P.tblOnce.Do(func() { P.loadTables() })
+	return P.tbl, P.tblErr
+}
+
+func (P *Prog) loadTables() (*Tables, error) {
 	dir := filepath.Join(P.VerifDir, "tools", "tabledump")
 	work, err := os.MkdirTemp("", "gocv-tabledump")
 	if err != nil {
